@@ -16,6 +16,7 @@ RULE = ('configs: generated mapping files (1..6 custom protobuf fields varint/st
         'all 1-byte buffers exhaustively, 2- and 3-byte buffers over a bit basis plus random ones, x offsets 0..24 x lengths 0..24 x shift; doc examples: every ```yaml mapping file shown in docs/mapping.md and '
         'cmd/goflow2/mapping.yaml (re-read from the repository on every run, translated to the abstract configuration by yaml_to_toks) '
         'must load and behave like the model compiled from its own content; edge files: 20 hand-written mapping files at the edges of what the loader accepts (unknown renderers / fields / keys, unmappable custom types, Go names, virtual fields, duplicate indices ...): accepted or rejected as the model does. '
+        'binary: cmd/goflow2 built from the working tree and run with generated mapping files (-mapping, json, file transport, one worker): every line of its output file == format_json of the model for the datagrams sent to its socket. '
         'non-trivial = a message carrying a custom field or produced under a matching mapping; distinct by input')
 TRUSTED = ['Coq 8.16.1 kernel (coqc), vm_compute in the finite GetBytes theorem', 'extraction + ocaml/main.ml glue',
            'Go harness harness/cfg.go, fmt.go; bin/engine.py; the Python YAML printer of this module',
@@ -186,6 +187,140 @@ def edge_configs():
     }
 
 
+def binary_cfg(rng):
+    """a mapping file for the end-to-end run of the real binary: no column that depends on the wall clock"""
+    notime = [f for f in ALLFIELDS if not f.startswith('time_')]
+    customs = [('cust%d' % i, 1000 + rng.randrange(4000), rng.choice(['varint', 'string']), rng.random() < 0.4)
+               for i in range(rng.randrange(0, 3))]
+    fields = rng.sample(notime, rng.randrange(3, len(notime))) + [c[0] for c in customs]
+    if rng.random() < 0.5:
+        fields.append('icmp_name')
+    rng.shuffle(fields)
+    ren = {f: 'x_' + f for f in rng.sample(fields, min(2, len(fields)))}
+    rend = {f: rng.choice(['none', 'ip', 'mac', 'etype', 'proto', 'string'])
+            for f in rng.sample(fields, min(3, len(fields))) if f != 'icmp_name'}
+    keys = rng.sample([f for f in fields if f != 'icmp_name'], min(2, len(fields) - 1)) if rng.random() < 0.5 else []
+    nf = [(rng.choice([1, 2, 4, 7, 8, 10, 27, 56, 61, 82, 152]), c[0]) for c in customs]
+    return small_cfg(fields, customs, render=rend, rename=ren, keys=keys, nfmaps=nf)
+
+
+def binary_run(exe, y, toks, hist, kind):
+    """one run of the real goflow2 binary: -mapping <file> -format json -transport file, one socket, one worker, blocking;
+    the datagrams of `hist` sent from one local socket; SIGTERM; -> (exit status, lines of the output file, model line)"""
+    import socket, signal, tempfile, subprocess, time
+    f = hist.split(' ')
+    quads = [f[i:i + 4] for i in range(0, len(f) - 3, 4)]
+    tx = socket.socket(socket.AF_INET, socket.SOCK_DGRAM)
+    tx.bind(('127.0.0.1', 0))
+    sport = tx.getsockname()[1]
+    s = socket.socket(socket.AF_INET, socket.SOCK_DGRAM)
+    s.bind(('127.0.0.1', 0))
+    port = s.getsockname()[1]
+    s.close()
+    out = tempfile.mktemp(prefix='e2e', dir='/root/scratch')
+    mp = out + '.yaml'
+    open(mp, 'w').write(y)
+    pr = subprocess.Popen([exe, '-listen', '%s://127.0.0.1:%d?count=1&workers=1&blocking=true' % (kind, port), '-transport', 'file',
+                           '-transport.file', out, '-format', 'json', '-mapping', mp, '-addr', '', '-loglevel', 'error'],
+                          stdout=subprocess.PIPE, stderr=subprocess.PIPE)
+    # wait until the collector listens (the port shows up in /proc/net/udp), at most 20 s
+    hexport = ':%04X ' % port
+    for _ in range(400):
+        try:
+            if hexport in open('/proc/net/udp').read():
+                break
+        except OSError:
+            pass
+        time.sleep(0.05)
+    time.sleep(0.1)
+    for q in quads:
+        tx.sendto(bytes.fromhex(q[3][1:]), ('127.0.0.1', port))
+        time.sleep(0.002)
+    # wait until the output stops growing (at most 20 s), then stop the collector
+    last, still = -1, 0
+    for _ in range(400):
+        try:
+            sz = os.path.getsize(out)
+        except OSError:
+            sz = 0
+        still = still + 1 if sz == last else 0
+        last = sz
+        if still >= 8:
+            break
+        time.sleep(0.05)
+    pr.send_signal(signal.SIGTERM)
+    try:
+        rc = pr.wait(timeout=15)
+    except subprocess.TimeoutExpired:
+        pr.kill()
+        rc = 'timeout'
+    tx.close()
+    try:
+        lines = open(out, 'rb').read().split(b'\n')
+    except Exception:
+        lines = []
+    if lines and lines[-1] == b'':
+        lines.pop()
+    for p in (out, mp):
+        try:
+            os.remove(p)
+        except OSError:
+            pass
+    h2 = ' '.join(' '.join(['=7f000001', '#%x' % sport, q[2], q[3]]) for q in quads)
+    return rc, lines, 'pipec %s yamlj:%s %s %s' % (kind, y.encode().hex(), ' '.join(toks), h2)
+
+
+def binary_part(chk, rng, hists):
+    """THE SHIPPED BINARY against the model: cmd/goflow2 is built from the working tree and run with a generated mapping
+    file (-mapping), JSON format and the file transport; a generated history is sent to its socket; every line of the
+    output file must be, byte for byte, Model/Format.v format_json of the message the model pipe produces for the
+    same datagrams (exporter = 127.0.0.1 and the sending socket's port), in order."""
+    exe = '/root/scratch/goflow2-c14'
+    p = sh('go build -o %s ./cmd/goflow2' % exe, cwd=REPO, env=GOENV, timeout=900, check=False)
+    if p.returncode != 0:
+        chk.record('binary', dict(concrete=False, what='cmd/goflow2 does not build: ' + p.stdout[-300:]), {})
+        return
+    def judge_run(rc, lines, line):
+        m = model_run(GEN, [line])[0]
+        t = m.split(' ')
+        exp = [None if t[i + 1] == 'oom' else bytes.fromhex(t[i + 1][1:]) for i, x in enumerate(t[:-1]) if x == 'j']
+        bad = rc != 0 or len(lines) != len(exp) or any(e is not None and e != l for e, l in zip(exp, lines))
+        return bad, exp
+    runs = []
+    nlines = 0
+    try:
+        for _ in range(dict(quick=4, thorough=40)[chk.tier]):
+            y, toks = binary_cfg(rng)
+            kind = rng.choice(['flow', 'flow', 'netflow', 'sflow'])
+            hist = rng.choice(hists)
+            rc, lines, line = binary_run(exe, y, toks, hist, kind)
+            bad, exp = judge_run(rc, lines, line)
+            if bad:
+                # datagrams can be lost between two processes on a loaded machine: believed only if it happens again
+                rc, lines, line = binary_run(exe, y, toks, hist, kind)
+                bad, exp = judge_run(rc, lines, line)
+                chk.notes.append('binary run repeated after a first disagreement: %s' % ('disagrees again' if bad else 'agrees'))
+            runs.append(line)
+            chk.evals += 1
+            nlines += len(lines)
+            if lines:
+                chk.nontrivial.add(hashlib.sha1(line.encode()).digest()[:8])
+            if bad:
+                first = next((i for i, (e, l) in enumerate(zip(exp, lines)) if e is not None and e != l), None)
+                chk.record('scopeA-binary', dict(concrete=True, input=line[:60000], config=y, listen=kind, exit_status=rc,
+                           lines_written=len(lines), lines_expected=len(exp),
+                           first_difference=None if first is None else dict(index=first, impl=lines[first][:1500].decode(errors='replace'),
+                                                                            expected=exp[first][:1500].decode(errors='replace')),
+                           what='the goflow2 binary, run with this mapping file, did not write the JSON lines the reference gives for the datagrams sent to it'), {})
+    finally:
+        try:
+            os.remove(exe)
+        except OSError:
+            pass
+    chk.count('end-to-end runs of the goflow2 binary', len(runs))
+    chk.count('JSON lines written by the binary and compared', nlines)
+
+
 def yaml_to_toks(doc):
     """abstract configuration tokens of a parsed mapping file (the same vocabulary gen_cfg prints)"""
     doc = doc or {}
@@ -345,6 +480,7 @@ def run(chk):
         if mask_oom(o, m) != m:
             chk.record('scopeA-edge', dict(concrete=True, input=a[:60000], impl=mask_oom(o, m)[:3000], expected=m[:3000], config=name,
                        what='a mapping file at the edge of what the loader accepts is accepted / rejected / applied differently from the reference'), {})
+    binary_part(chk, rng, hists)
     # GetBytes
     gb = getbytes_lines(rng)
     bad = run_scope_b(chk, me, gb, 'getbytes', {}, timeout=120.0)
